@@ -62,8 +62,10 @@ def gen_config(rng, out, reshape=False):
             elif r < 0.65:
                 trig = 1 - trig
                 ctl += ["settrig", str(trig)]
-            elif r < 0.75:
+            elif r < 0.72:
                 ctl += ["settrig", str(trig)]      # a reconfiguration while running that leaves the trigger setting as it is
+            elif r < 0.78:
+                ctl += ["setline", str(rng.choice([0, 1, 2, 7]))]   # ... naming another input line for the frame trigger
             elif reshape and r < 0.95:
                 # another shape / sample type while running (a frame call may be pending): SampleType u8 u16 i8 i16 f32 u10 u12 u14
                 ctl += ["setshape", str(rng.choice([1, 3, 4, 16, 33, 64])), str(rng.choice([1, 2, 5, 17, 40])), str(rng.choice([0, 1, 2, 3, 4, 6]))]
